@@ -39,11 +39,15 @@ def main():
     name = f'{args.prop}-{args.mutant}'
     out = os.path.join(VERIF, 'seeded', name)
     os.makedirs(out, exist_ok=True)
+    ported = os.path.exists(os.path.join(out, 'patch.original.diff'))   # patch.diff was ported by hand: keep it
     for f in ('patch.diff', 'demo.py', 'README.md'):
-        if os.path.exists(os.path.join(src, f)):
+        if os.path.exists(os.path.join(src, f)) and not (ported and f == 'patch.diff'):
             shutil.copy(os.path.join(src, f), os.path.join(out, f))
     meta_path = os.path.join(out, 'meta.json')
     meta = json.load(open(meta_path)) if os.path.exists(meta_path) else {}
+    if ported:
+        meta.setdefault('ported', 'patch.diff is the same change ported to the current tree (a later fix rewrote the '
+                        "lines); the agent's patch is patch.original.diff")
     meta.update({'id': name, 'property': args.prop, 'source': 'fresh sub-agent given only the property text and a '
                  'scratch worktree of /repo', 'evaluated_at': time.strftime('%Y-%m-%dT%H:%M:%SZ', time.gmtime())})
     wt = f'/tmp/seedcheck-{name}'
